@@ -138,6 +138,11 @@ class VLoop(object):
   def now(self):
     return self._now
 
+  wall_offset = 0.0      # what a scenario adds to the wall clock (time.time) without touching the loop's own, monotonic time
+
+  def wall(self):
+    return self._now + self.wall_offset
+
   def update_now(self):
     pass
 
@@ -260,7 +265,7 @@ def install():
   hl.set_hub(hub)
   loop.hub = hub
   hub.handle_error = loop._record_error
-  _time.time = loop.now
+  _time.time = loop.wall
   _LOOP, _HUB = loop, hub
   return loop
 
